@@ -104,6 +104,7 @@ def run(rep, tier, seed, model_ok=True, effort=1):
         chain_items.append("(%s,%d%%nat,%s)" % (cs(start), len(out), cs(out[-1]) if out else "[]"))
         rep.sample(dict(chain_start=start, steps=len(out), last=out[-1] if out else None), limit=8)
     cli_stream(rep, common.rng(seed, "c17-cli"), (60 if tier == "quick" else 1500) * effort)
+    tag_stream(rep)
     if model_ok:
         bad, errs = common.coq_eval(
             "c17", "From Coq Require Import List NArith.\nFrom BV Require Import Lib.PyStr Lib.Harness Model.Lexid.",
@@ -164,6 +165,27 @@ def cli_stream(rep, r, n):
             rep.violation("the new version does not carry a BUILD where the pattern has one", input=inp, **{"class": "no-build"})
             continue
         oracle(rep, bid, m.group(1), generated=False)
+
+
+def tag_stream(rep):
+    """successive bumps where the previous BUILD is known only from a VCS tag (a checkout without the bump commit): the next id is greater than
+    the tagged one, also when the config still holds an id from before the first bump (below 1000)"""
+    import re as _re
+    from . import impl, project
+    for cfgv, tag in (("v2024.0007", "v2024.1008"), ("v2024.7", "v2024.1008"), ("v2024.999", "v2024.1999"), ("v2024.0998", "v2024.22000")):
+        for scope in (None, "global"):
+            prj = project.TempProject("vYYYY.BUILD", cfgv, files={"a.txt": ["ver = {version}"]}, commit=True, tag=True, push=False, vcs="fakegit", tag_scope=scope,
+                                      vcs_cfg=dict(tags=[tag, cfgv], tags_branch=[cfgv], status="", remote=None))
+            with prj:
+                code, out, logs, exc = prj.run(impl, ["update", "--no-fetch", "--date", "2024-06-01"])
+                new = next((l.split("New Version: ", 1)[1].strip() for l in logs if "New Version: " in l), None)
+            rep.case(("tagged-previous-build", cfgv, tag, scope), nontrivial=code == 0)
+            rep.count("cli-bumps")
+            old_b, m = tag.split(".")[1], _re.search(r"\.(\d+)$", new or "")
+            if code != 0 or not m:
+                rep.violation("update fails although the tagged BUILD is below the documented maximum", input=dict(config=cfgv, tag=tag, tag_scope=scope, exit=code, logs=logs[-3:]), **{"class": "bump-fails"})
+            else:
+                oracle(rep, old_b, m.group(1), generated=True)
 
 
 def search(rep, tier, seed, effort=2):
